@@ -214,7 +214,9 @@ def replay_file(prop, path, quiet=False):
         raise HarnessError("replay file %s is for %s" % (path, doc.get("property")))
     res = prop.run(doc["case"])
     if not quiet:
-        print("replay %s: digest %s (recorded %s)" % (path, res.digest[:16], (doc.get("digest") or "")[:16]))
+        same = res.digest == doc.get("digest")
+        print("replay %s: event-log digest %s (%s)" % (path, res.digest[:16], "identical to the recorded run" if same else
+              "recorded %s - differs, which is expected only when the repository or the harness changed since" % (doc.get("digest") or "")[:16]))
         for v in res.violations:
             print("  violation cls=%s op=%s: %s" % (v.cls, v.op, v.msg))
     return doc, res
@@ -424,6 +426,15 @@ def run_check(prop, tier, seed, jobs, runs_override=None):
         "notes": notes,
         "jobs": jobs,
     }
+    coverage["real_components"] = list(getattr(prop, "real_components", [
+        "cocoasm/** (assembler core and container layer), assembler.py and file_util.py including their argparse front ends: unmodified code imported from $VERIF_REPO's working tree, a fresh module image per simulated process"]))
+    coverage["stub_components"] = list(getattr(prop, "stub_components", [
+        "host filesystem: SimFS (in memory, behind builtins.open / io.open / os.stat / os.path.* / os.remove / os.rename / os.listdir / os.path.expanduser)",
+        "process boundary: SimProc (sys.argv, stdout/stderr capture, SystemExit and uncaught-exception capture)",
+        "other parties: RefTape / RefDisk reference writers, killers and readers (cocosim/peers)",
+        "time: step clock (sys.settrace line events in repository frames) plus a CPU-time backstop"]))
+    coverage["simulated_time"] = {"logical_steps_ops": agg["steps"], "step_clock_line_events": agg["clock"],
+                                  "simulated_processes": int(stats.get("cli:assembler", 0)) + int(stats.get("cli:file_util", 0)) + int(stats.get("cli_invocations", 0)) + int(stats.get("zygote_requests", 0))}
     coverage.update(extra)
     evidence = {
         "property_id": prop.id, "tier": tier, "seed": seed, "level": "exploration",
